@@ -44,7 +44,7 @@ Record version := mkVer {
 
 Record pend := mkPend {
   p_i : Z; p_kind : Z; p_inner : Z; p_root : Z; p_gid : Z; p_key : Z; p_val : Z; p_exp : Z; p_t : Z;
-  p_applied : option (Z * Z * Z) (* okind, rev, time *) }.
+  p_applied : option (Z * Z * Z * Z) (* okind, rev, value read (Get), time *) }.
 
 (* what the last store call of a goroutine returned: (kind, inner, rkind, rev, val-written-or-read, key) *)
 Record lastret := mkLR { lr_i : Z; lr_kind : Z; lr_inner : Z; lr_rk : Z; lr_rev : Z; lr_val : Z; lr_key : Z; lr_t : Z }.
@@ -59,10 +59,13 @@ Record iobs := mkIObs {
   io_stopped : bool;       (* a stop call has returned (successfully) and no Start since *)
   io_terms : Z;            (* number of times the claim was raised *)
   io_views : list (Z * Z); (* (token, revision) pairs the instance held while claiming *)
-  io_false_cause : Z       (* call site that last cleared the claim *)
+  io_false_cause : Z;      (* call site that last cleared the claim *)
+  io_promotes : Z;         (* promotion callbacks entered *)
+  io_demotes : Z;          (* demotion callbacks entered *)
+  io_ended : Z             (* terms ended (claim cleared while held) *)
 }.
-#[export] Instance eta_iobs : Settable _ := settable! mkIObs <io_flag; io_tok; io_acq_rev; io_state; io_started; io_stopping; io_stopped; io_terms; io_views; io_false_cause>.
-Definition iobs0 := mkIObs false 0 0 stInit false false false 0 [] 0.
+#[export] Instance eta_iobs : Settable _ := settable! mkIObs <io_flag; io_tok; io_acq_rev; io_state; io_started; io_stopping; io_stopped; io_terms; io_views; io_false_cause; io_promotes; io_demotes; io_ended>.
+Definition iobs0 := mkIObs false 0 0 stInit false false false 0 [] 0 0 0 0.
 
 Record base := mkBase {
   b_now : Z;
@@ -131,7 +134,7 @@ Definition bapply (b0 : base) (te : Z * ev) : base :=
       match aget (b_pend b) op with
       | None => b
       | Some p =>
-          let b1 := b <| b_pend ::= fun m => aset m op (p <| p_applied := Some (okind, rev, t) |>) |> in
+          let b1 := b <| b_pend ::= fun m => aset m op (p <| p_applied := Some (okind, rev, val, t) |>) |> in
           if (okind =? oOk) then
             if p_kind p =? kCreate then publish b1 (p_key p) rev (p_i p) (p_val p) false hCreate (p_inner p) 0
             else if p_kind p =? kUpdate then publish b1 (p_key p) rev (p_i p) (p_val p) false hUpdate (p_inner p) (p_exp p)
@@ -160,7 +163,9 @@ Definition bapply (b0 : base) (te : Z * ev) : base :=
                                      <| io_terms ::= Z.succ |> <| io_views ::= cons (tok, lr_rev r) |>)
         | None => upd_inst b i (fun x => x <| io_flag := true |> <| io_tok := 0 |> <| io_acq_rev := 0 |> <| io_terms ::= Z.succ |>)
         end
-      else upd_inst b i (fun x => x <| io_flag := false |> <| io_false_cause := cause |>)
+      else upd_inst b i (fun x => x <| io_flag := false |> <| io_false_cause := cause |> <| io_ended := (if io_flag x then io_ended x + 1 else io_ended x) |>)
+  | EPromote i tok gid => upd_inst b i (fun x => x <| io_promotes ::= Z.succ |>)
+  | EDemote i gid => upd_inst b i (fun x => x <| io_demotes ::= Z.succ |>)
   | ETrans i f to => upd_inst b i (fun x => x <| io_state := to |>)
   | ELog i code gid extra =>
       if code =? 1 then upd_inst b i (fun x => x <| io_state := stCandidate |> <| io_started := true |> <| io_stopped := false |>)
